@@ -1,10 +1,11 @@
 import binascii, glob, json, os, subprocess, vlib
 from props import gocommon
 
-THEOREMS = ["Folang.Props.C06." + t for t in "col_invariant_init col_invariant_step col_invariant".split()]
+THEOREMS = ["Folang.Props.C06." + t for t in "col_invariant_init col_invariant_step col_invariant indent_shift".split()] + \
+    ["Folang.Tokenizer." + t for t in "scan_blanks nextNonSpace_blanks nextNonSpace_fuel spaceLen_blanks".split()]
 
 ASSUMPTIONS = [
-    "PARTIAL: C06_full (emitted Go invariant under every re-layout of the layout grammar) is stated, not proved; proved: col_invariant for the byte-level tokenizer model (all inputs, all reachable states)",
+    "PARTIAL: C06_full (emitted Go invariant under every re-layout of the layout grammar) is stated, not proved; proved: indent_shift (after an EOL token, k more blanks in front of a line leave its first token unchanged and move its column and begin by exactly k: all byte strings, comments and tabs included), scan_blanks / nextNonSpace_blanks (blanks merge into one SPACE token exactly k bytes longer), and col_invariant for the byte-level tokenizer model (all inputs, all reachable states)",
     "the parser's use of columns (psPushOffside / isEndOfBlock / insideOffside / psSkipEOL) is not modelled: tied by the layout stream (one abstract program under many random layouts through the real compiler; byte-identical Go required) and the dedent test (a statement indented less than its block must behave as moved out of it)",
     "layout grammar = the list in the statement: block indentation by any positive amount, blank lines, trailing blanks, line/block comments between or after statements, arms and definitions, if on one line or several, let right-hand side and arm body on the same or the next line, pipeline broken before any |>; record literal fields and call arguments are never broken across lines",
     "known findings D10 (newline inside a block comment before code on the same line), D13 ($\"...\" token begins one byte late), D15 (a dedented line starting with a binary operator continues the expression); generators avoid them",
